@@ -255,7 +255,7 @@ package netpoll
 //  - a hang-up is queued only when nothing was read in this wake-up, and after readall drained the descriptor when it was readable
 //  - the close message closes the poller's two descriptors exactly once and reports closed
 //@ func (*defaultPoll).handler
-//@   property C10 C11
+//@   property C10 C11 C15
 //@   requires len(events) <= len(p.barriers) && len(p.buf) >= 1 && p.wop != nil
 //@   requires forall k int :: 0 <= k && k < len(p.barriers) ==> len(p.barriers[k].bs) == len(p.barriers[k].ivs)
 //@   requires forall o *FDOperator :: !o.opheld
@@ -392,7 +392,7 @@ package netpoll
 //@ pred ocF(c *operatorCache) = (forall k int {c.freelist[k]} :: 0 <= k && k < len(c.freelist) ==> 0 <= c.freelist[k] && c.freelist[k] < len(c.cache) && c.cache[c.freelist[k]].slot == 2 && c.cache[c.freelist[k]].detached == 0 && !c.cache[c.freelist[k]].owned)
 //@     && (forall j int, k int {c.freelist[j], c.freelist[k]} :: 0 <= j && j < k && k < len(c.freelist) ==> c.freelist[j] != c.freelist[k])
 // an owned slot is in state 1 and stays registered in the (append-only) table of its cache
-//@ worldrely forall o *FDOperator {o.owned} :: o.owned ==> o.slot == 1 && o.cacheof != nil && 0 <= o.index && o.index < len(o.cacheof.cache) && o.cacheof.cache[o.index] == o
+//@ worldrely forall o *FDOperator {o.owned} :: o.owned ==> o.poll == old(o.poll) && o.slot == 1 && o.cacheof != nil && 0 <= o.index && o.index < len(o.cacheof.cache) && o.cacheof.cache[o.index] == o
 
 //@ func lock
 //@   inline
